@@ -403,13 +403,16 @@ class SqliteMap(BaseMap):
              'WHERE n.id = ni.id ')
         if bb:
             minY, minX, maxY, maxX = bb
-            q += 'AND ni.minX >= ? AND ni.maxX <= ? AND ni.minY >= ? AND ni.maxY <= ?'
+            # The rtree stores 32-bit floats rounded outwards: select on intersection, filter exactly below
+            q += 'AND ni.maxX >= ? AND ni.minX <= ? AND ni.maxY >= ? AND ni.minY <= ?'
             c.execute(q, (minX, maxX, minY, maxY))
         else:
             c.execute(q)
 
         for row in c.fetchall():
             key_a, lon_a, lat_a = row
+            if bb and not (minX <= lon_a <= maxX and minY <= lat_a <= maxY):
+                continue
             yield key_a, (lat_a, lon_a)
 
     def purge(self):
